@@ -140,7 +140,6 @@ theorem tombstone_refused_at_rpc (s : St) (op : Op) : C14.TombstoneRefused (step
   | rmtomb o mask => simp [stepOf, kindOf, C14.targetOf] at hk
   | region r st => simp [stepOf, kindOf, C14.targetOf] at hk
   | labelsFrom r f mask => simp [stepOf, kindOf, C14.targetOf] at hk
-  | hbHandle i mask => simp [stepOf, kindOf, C14.targetOf] at hk
   | checkOnly o mask => simp [stepOf, kindOf, C14.targetOf] at hk
 
 /-- **bury_only_empty.** Whenever an operation other than the direct call of `buryStore` turns a
@@ -236,7 +235,6 @@ theorem success_stored_eq_served (s : St) (op : Op) (hinv : Inv s.served s.store
     | rmtomb o mask => simp [stepOf, kindOf] at hk
     | region r st => simp [stepOf, kindOf] at hk
     | labelsFrom r f mask => simp [stepOf, kindOf] at hk
-    | hbHandle i mask => simp [stepOf, kindOf] at hk
     | checkOnly o mask => simp [stepOf, kindOf] at hk
 
 /-- **failed_write_served_unchanged.** The served record and weights of a store whose write the
